@@ -153,6 +153,21 @@ let run_i args =
   String.concat " " out
 
 (* ------------------------------------------------------------------------------------------ *)
+(* `R <n> | <ops>`: handle operations over n trees (Handles.v): per operation the trees torn down by it *)
+let run_r n ops =
+  let nat s = nat_of_int (int_of_string s) in
+  let parse op =
+    let c = op.[0] and rest = String.sub op 1 (String.length op - 1) in
+    match c, String.split_on_char ':' rest with
+    | 'c', [r] -> HClone (nat r) | 'k', [r] -> HChild (nat r) | 'd', [r] -> HDrop (nat r)
+    | 'f', [a; b] -> HCloneFrom (nat a, nat b) | 's', [a; b] -> HSwap (nat a, nat b)
+    | _ -> failwith ("bad handle op " ^ op) in
+  let show ts = String.concat " " (List.map (fun t -> match t with [] -> "-" | l -> String.concat "+" (List.map (fun x -> "t" ^ string_of_int (int_of_nat x)) l)) ts) in
+  let (s1, ts) = hrun_ops (hinit (nat_of_int n)) (List.map parse ops) in
+  let (_, ts2) = hdrop_all s1 in
+  "RH " ^ show ts ^ " || " ^ show ts2 ^ " || leak=0"
+
+(* ------------------------------------------------------------------------------------------ *)
 (* `N <p|r> <events> | <nav ops>` : red-tree traversal programs *)
 let len_counts_nodes = ref true      (* the code after the fix of F2 *)
 let tokens_skip_empty = ref true     (* the code after the fix of F3 *)
@@ -211,11 +226,22 @@ let show_nres g rs = function
 
 (* one operation of the Coq register machine (Nav.nav_exec); unknown op names leave an empty register *)
 let nav_step g (regs : pos option list) rs (op : string) : string * pos option * rstate =
-  match parse_nop op with
+  let helper = String.length op > 5 && String.sub op 0 5 = "taoh:" in
+  let op' = if helper then "tao:" ^ String.sub op 5 (String.length op - 5) else op in
+  match parse_nop op' with
   | None -> ("-", None, rs)
   | Some o ->
     let ((res, nr), rs') = nav_exec g !len_counts_nodes !tokens_skip_empty regs rs o in
-    (show_nres g rs' res, nr, rs')
+    (match res with
+     | RTao (Ok x) when helper ->
+       (* the TokenAtOffset helper (TaoHelper.v): left / right bias, the iterator drained by 4 calls of next,
+          and the exact size reported before each call *)
+       let sp = show_pos g rs' in
+       let opt = function Some t -> sp t | None -> "-" in
+       let (items, sizes) = tao_drain (nat_of_int 4) x in
+       (Printf.sprintf "L=%s R=%s it=[%s] sz=%s" (opt (tao_left x)) (opt (tao_right x))
+          (String.concat "," (List.map sp items)) (String.concat "," (List.map (fun n -> string_of_int (int_of_nat n)) sizes)), nr, rs')
+     | _ -> (show_nres g rs' res, nr, rs'))
 
 let build_green toks =
   let ops = List.map parse_op toks in
@@ -569,11 +595,12 @@ let run_x args =
             let s = true_off_pos trees.(ti) pos in
             views := !views @ [Some (ti, pos, s, s + int_of_n (len_at trees.(ti) pos))]; "ok"
           end else begin views := !views @ [None]; "-" end
-        | "slice" ->
+        | "slice" | "sliceo" ->
           (match view 1 with
            | None -> views := !views @ [None]; "-"
            | Some (ti, pos, s, e) ->
-             (match v_slice (n_of_int s) (n_of_int e) (n_of_int (num 2)) (n_of_int (num 3)) with
+             let fin i = if p.(i) = "_" then None else Some (n_of_int (num i)) in
+             (match v_slice_opt (n_of_int s) (n_of_int e) (fin 2) (fin 3) with
               | Panic q -> views := !views @ [None]; "PANIC:" ^ panic_code q
               | Ok (s', e') -> views := !views @ [Some (ti, pos, int_of_n s', int_of_n e')];
                 "len=" ^ string_of_int (int_of_n (v_len s' e'))))
@@ -688,6 +715,7 @@ let run_line line =
   | "Y" :: args -> run_y args
   | "I" :: args -> run_i args
   | "K" :: args -> run_k args
+  | "R" :: n :: "|" :: ops -> run_r (int_of_string n) ops
   | "A" :: args -> run_a args
   | "Q" :: args -> run_q args
   | "X" :: args -> run_x args
